@@ -6,24 +6,27 @@ from ..rules.skeleton import Interp
 from ..util import switch_table, find_switches, is_assign
 
 EXPLANATION = (
-    "Static decision of table clauses of C17: (1) the reader's schema walk "
-    "(traverse_schema_recursive) is executed abstractly on the cases that define its table - a leaf of each "
-    "repetition (with/without the flag) under two ancestor level pairs, a group of each repetition over a "
-    "leaf, sibling leaves, a two-child group, an over-long child count - and must record the textbook levels "
-    "(OPTIONAL: def+1, REPEATED: def+1 and rep+1, REQUIRED/absent: +0, accumulated along the path), the "
-    "element index, consecutive slots, and return the index just past the subtree; the walk starts below "
-    "the root with (0,0); (2) the level expressions of the builder "
-    "(carquet_schema_add_column), the writer (add_column_internal) and the node accessors are "
-    "evaluated for the three repetition values and agree with that table for a flat leaf; (3) "
-    "count_leaves and the walk use the same leaf predicate (the arrays sized by one are indexed by the "
-    "other); (4) schema_ensure_capacity grows all four parallel arrays to the same new capacity and "
-    "dominates every store at num_elements/num_leaves in the builder; (5) element accessors return the "
-    "field of the same name; find_column scans the leaves by name; (6) element stores into a "
-    "carquet_schema's per-leaf arrays happen only in the builder, the reader fills them through the "
-    "recursive walk, which every successful build_schema runs (compute_levels cannot be bypassed); (7) a "
-    "byte offset into a typed array is element-scaled whenever the length is (growth code does not use an "
-    "element count as a byte count). Decides these clauses, not leaf "
-    "order and counts for arbitrary trees (they follow from (1) only for well-formed child counts).")
+    "Static decision of table clauses of C17: (1) the reader's schema walk (traverse_schema_recursive) is "
+    "executed abstractly on the cases that define its table - a leaf of each repetition (with/without the "
+    "flag) under two ancestor level pairs, a group of each repetition over a leaf, sibling leaves, a "
+    "two-child group, an over-long child count - and must record the textbook levels (OPTIONAL: def+1, "
+    "REPEATED: def+1 and rep+1, REQUIRED/absent: +0, accumulated along the path), the element index, "
+    "consecutive slots, and return the index just past the subtree; the walk starts below the root with "
+    "(0,0); (2) the level expressions of the builder (carquet_schema_add_column), the writer "
+    "(add_column_internal) and the node accessors are evaluated for the three repetition values and agree "
+    "with that table for a flat leaf; (3) count_leaves and the walk use the same leaf predicate (the "
+    "arrays sized by one are indexed by the other); (4) schema_ensure_capacity grows all four parallel "
+    "arrays to the same new capacity and dominates every store at num_elements/num_leaves in the builder; "
+    "(5) element accessors return the field of the same name; find_column scans the leaves by name; (6) "
+    "element stores into a carquet_schema's per-leaf arrays happen only in the builder, the reader fills "
+    "them through the recursive walk, which every successful build_schema runs (compute_levels cannot be "
+    "bypassed); (7) a byte offset into a typed array is element-scaled whenever the length is (growth "
+    "code does not use an element count as a byte count). (8) the LogicalType union tables of the "
+    "metadata parser and writer equal the specification's (an element's logical type is the one the file "
+    "states; shared with C13.5). The level expressions of (2) are obtained by executing "
+    "carquet_schema_add_column and add_column_internal abstractly once per repetition value and reading "
+    "the level slot of the new leaf. Decides these clauses, not leaf order and counts for arbitrary trees "
+    "(they follow from (1) only for well-formed child counts).")
 
 FR = "src/reader/file_reader.c"
 SC = "src/metadata/schema.c"
